@@ -37,6 +37,7 @@ def dispatch (line : String) : String :=
   | "cp" :: rest => (CopcD.handle rest).getD "bad-op"
   | "ht" :: rest => (HttpD.handle rest).getD "bad-op"
   | ["vw", "tables"] => viewTables
+  | ["od", "flags"] => s!"writer={if Gen.Order.writerCountsAfterWrite then 1 else 0} appender={if Gen.Order.appenderCountsAfterWrite then 1 else 0}"
   | _ => "bad-op"
 
 partial def loop (h : IO.FS.Stream) (out : IO.FS.Stream) : IO Unit := do
